@@ -1,5 +1,6 @@
 """C03 — the RVB cluster update preserves the thermal distribution (partial by nature)."""
 from checks import kern
+from checks import pure_fns
 LEAN_TARGETS = ["QmcProps.C03", "drv_c03"]
 BINS = ["c03", "kern"]
 
@@ -70,6 +71,7 @@ RULE = ("rvb-updates: Ising samplers (frustrated triangle, triangle with unequal
 
 
 def main(ck):
+    pure_fns.run(ck)   # source->Lean translation of pure functions, re-proved equal to the hand model (scoped to this property's groups)
     if ck.lake_build(LEAN_TARGETS):
         ck.audit("QmcProps.C03", ["Qmc.C03." + t for t in THEOREMS])
     if ck.cargo_build(BINS):
